@@ -1028,6 +1028,28 @@ for _pid in ["C02", "C03", "C04", "C05", "C06", "C07", "C08", "C09", "C10", "C11
 
 ok("C02", "selector locals renamed in Tempo._influence", _multi(
     _sub(TE, "tmp_deg_positions", "positions_pair", count=100)))
+ok("C02", "TempoBackend counts the step first and indexes with step-1 (original style)", _sub(
+    TB, """        next_step = self._step + 1
+        prop_1, prop_2 = self._propagators(self._step)
+        self._state = self.compute_system_step(next_step, prop_1, prop_2)
+        self._step = next_step
+""", """        self._step += 1
+        prop_1, prop_2 = self._propagators(self._step-1)
+        self._state = self.compute_system_step(self._step, prop_1, prop_2)
+"""))
+brk("C02", "step counted first but propagators indexed with the new step", "S2", _sub(
+    TB, """        next_step = self._step + 1
+        prop_1, prop_2 = self._propagators(self._step)
+        self._state = self.compute_system_step(next_step, prop_1, prop_2)
+        self._step = next_step
+""", """        self._step += 1
+        prop_1, prop_2 = self._propagators(self._step)
+        self._state = self.compute_system_step(self._step, prop_1, prop_2)
+"""))
+brk("C15", "final-only label from the length of the state list", "U1", _sub(
+    SD, "        times = [start_time + num_steps*dt]\n\n    return Dynamics(", "        times = [start_time + len(states)*dt]\n\n    return Dynamics("))
+brk("C15", "all-steps labels start at dt", "U1", _sub(
+    SD, "        times = start_time + np.arange(len(states))*dt", "        times = start_time + (1 + np.arange(len(states)))*dt"))
 ok("C11", "Gibbs: remaining steps via a temporary", _sub(
     TE, "        num_step = max(\n            0, self._parameters.n_steps - 1 - self._backend_instance.step)",
     "        done = self._backend_instance.step\n        last = self._parameters.n_steps - 1\n        num_step = max(0, last - done)"))
